@@ -420,8 +420,15 @@ def check_property(prop: str, tier: str, seed: int, quiet: bool = False) -> int:
     obligations = []; failed = []
     for r in results:
         meta, _ = gen.parse_spec(os.path.join(ROOT, "specs", r.unit + ".vs"))
+        # attribution is per FUNCTION: verification is modular, callers assume every clause of a callee's contract, so a proof of
+        # `prop` that goes through function F stands only if ALL obligations of F are discharged. A function belongs to the cone of
+        # `prop` if one of its clauses is tagged with it.
+        fn_tags = {}
         for o in r.obligations:
-            if serves(o, prop, meta["properties"]):
+            if o.get("fid") and o["kind"] != "lemma":
+                fn_tags.setdefault(o["fid"], set()).update(o["tags"] or [])
+        for o in r.obligations:
+            if serves(o, prop, meta["properties"]) or (o["kind"] != "lemma" and o.get("fid") and prop in fn_tags.get(o["fid"], ())):
                 obligations.append(o)
         served = set(o["oid"] for o in obligations)
         for f in r.failed:
